@@ -67,7 +67,7 @@ fn ctx_read_without_path_to_writer_aborts() {
 
 /// X reads R and does reach W: no abort; the read is recorded with the checker passed and a stamp taken from the very
 /// reader handed back (C09), which is returned in a fresh state.
-//@h props=C05,C09,C08 tier=quick unwind=14 stubs=sort,optref,boxslice timeout=900 fieldsens=1024
+//@h props=C05,C09,C08:t tier=quick unwind=14 stubs=sort,optref,boxslice timeout=900 fieldsens=1024
 fn ctx_read_with_path_to_writer_is_recorded() {
   let mut pie = Pie::with_tracker(());
   pie.resource_state_mut::<Cell>().set(CellState { v: CUR });
@@ -166,7 +166,7 @@ fn ctx_write_to_resource_of_other_writer_aborts() {
 
 /// Allowed writes: no recorded writer and every recorded reader requires X; or X is the recorded writer re-executing after
 /// reset_task. No abort; exactly one write edge; stamp taken after write_fn (C09).
-//@h props=C06,C05,C09,C08 tier=quick unwind=14 stubs=sort,optref,boxslice timeout=900 fieldsens=1024
+//@h props=C06,C09,C05:t,C08:t tier=quick unwind=14 stubs=sort,optref,boxslice timeout=900 fieldsens=1024
 fn ctx_allowed_writes_are_recorded_once() {
   let mut pie = Pie::with_tracker(());
   pie.resource_state_mut::<Cell>().set(CellState { v: CUR });
@@ -275,7 +275,7 @@ fn ctx_require_closing_a_cycle_aborts() {
 }
 
 /// ... and a require that closes no cycle is reserved (edge present, marked reserved) without executing anything.
-//@h props=C07,C08 tier=quick unwind=14 stubs=sort,optref,boxslice timeout=900 fieldsens=1024
+//@h props=C07,C08:t tier=quick unwind=14 stubs=sort,optref,boxslice timeout=900 fieldsens=1024
 fn ctx_require_without_cycle_is_reserved() {
   let mut pie = Pie::with_tracker(());
   let mut s = pie.new_session();
